@@ -14,7 +14,7 @@ BUILDS = {
 }
 
 HOOK_COMMITS = ["9bb871a", "5fa190b"]
-FIX_COMMITS = ["1a9feb3", "a54e157"]
+FIX_COMMITS = ["1a9feb3", "a54e157", "e8eadf0"]
 
 # properties not claimed, with the reason (filled while the checks are being built)
 NOT_APPLICABLE = {}
@@ -138,6 +138,27 @@ PROPS = {
         "runs": [
             {"engine": "vt", "quick": 8000, "thorough": 600000, "what": "E-A: all wait APIs, timeouts on the virtual clock, snapshot at return"},
             {"engine": "th", "quick": 24000, "thorough": 2000000, "what": "E-T: detached-cell and live-actor lost-wake-up / early-return oracle with noise at WAIT_AFTER_NOTIFIED, STATUS_BEFORE_NOTIFY, NOTIFY_BETWEEN"},
+        ],
+    },
+    "C07": {
+        "level": "exploration",
+        "technique": "runtime monitoring: raw mailbox of a detached cell (H4) compared offline with the client-boundary history (exactly one marker, nothing after it, mailbox == accepted sends, per-sender order, nothing admitted after drain() returned, no leaked admission ticket) under thread noise + rendezvous at the atomic steps of the send/drain protocol; live-actor monitors (accepted == handled, one 'Drained' exit, stops by itself) at every lifecycle stage on the virtual clock",
+        "level_text": ("Exploration: (th) 1-6 sender threads x 1-30 sends racing 1-3 drainer threads x 1-3 drain calls on a detached "
+                       "mailbox, including re-entrant sends issued while a serializable message to a remote-id cell is being boxed, "
+                       "with seeded delays / rendezvous at SEND_AFTER_STATUS/ADMIT, TICKET_AFTER_SUB, DRAIN_AFTER_CLOSE/STATUS, "
+                       "MARKER_BEFORE/AFTER_CAS; the mailbox is read after all threads joined, so no waiting is involved. Every fifth "
+                       "scenario uses a live supervised actor instead. (vt) a live instant-spawned actor is drained at each of 8 lifecycle "
+                       "stages. Held on what was observed."),
+        "level_note": ("'Stops by itself' is a bounded-progress clause: on the virtual clock it is exact (60 virtual seconds after the last "
+                       "stimulus), on the thread engine a 20 s wall bound guards the harness. Weak-memory reorderings of the Relaxed CAS "
+                       "are only reachable through the Miri run (listed separately when present)."),
+        "rule": ("th: non-trivial = some send interval overlapped some drain interval; distinct = hash(#accepted, #rejected, #markers, mailbox "
+                 "length, overlap). vt: every scenario drains at a chosen stage (non-trivial by construction); distinct = hash(stage, #handled, "
+                 "#rejected, linked)."),
+        "assumptions": ["history stamps are taken at the client boundary from one SeqCst clock"],
+        "runs": [
+            {"engine": "th", "quick": 16000, "thorough": 1500000, "what": "E-T: detached mailbox (4/5) and live actor (1/5) under noise + rendezvous at the protocol's atomic steps"},
+            {"engine": "vt", "quick": 8000, "thorough": 400000, "what": "E-A: live instant-spawned actor drained at 8 lifecycle stages (incl. before start / during pre_start), linked and unlinked"},
         ],
     },
 }
